@@ -203,6 +203,8 @@ class Renderer:
                 return v + q[1:]
             if q == 'lower':
                 return v.lower()
+            if q == 'area':         # an area of a multi-area reference
+                return v
             return q + v
         raise ValueError(e)
 
